@@ -214,11 +214,13 @@ Fixpoint parse_lines (O : oracle) (c : cfg) (ls : list str) (st : pstate) : res 
   end.
 
 (* ---- the file as the source sees it ---- *)
-Inductive fstate := FMissing | FBad | FText (s : str).   (* FBad: not valid UTF-8 *)
+Inductive fstate := FMissing | FBad | FText (s : str)    (* FBad: not valid UTF-8 *)
+                  | FFail (e : err).                      (* open() or a read raises e (injected I/O fault) *)
 Definition load (O : oracle) (c : cfg) (f : fstate) : res pstate :=
   match f with
   | FMissing => Exc EFileNotFound
   | FBad => Exc EUnicode
+  | FFail e => Exc e
   | FText s => parse_lines O c (file_lines s) empty
   end.
 
@@ -269,7 +271,12 @@ Definition do_call (O : oracle) (c : cfg) (fs : N * fstate) (src : source) (cl :
   end.
 
 (* ---- histories ---- *)
-Inductive hstep := SEdit (v : N) (f : fstate) | SCall (cl : call).
+(* fault injected into ONE call of the long-lived source: open/read of the file raises e (if the call gets that
+   far), or os.stat raises so that version_for_file_path yields the token of that exception class *)
+Inductive fault := FIO (e : err) | FStat (tok : N).
+Definition faulted (fs : N * fstate) (flt : fault) : N * fstate :=
+  match flt with FIO e => (fst fs, FFail e) | FStat tok => (tok, snd fs) end.
+Inductive hstep := SEdit (v : N) (f : fstate) | SCall (cl : call) | SCallF (cl : call) (flt : fault).
 (* observation: for every call, what the long-lived source answers and what a
    source constructed at that moment answers *)
 Fixpoint run (O : oracle) (c : cfg) (fs : N * fstate) (src : source) (h : list hstep) : list (answer * answer) :=
@@ -278,6 +285,9 @@ Fixpoint run (O : oracle) (c : cfg) (fs : N * fstate) (src : source) (h : list h
   | SEdit v f :: r => run O c (v, f) src r
   | SCall cl :: r =>
       let (src', a) := do_call O c fs src cl in
+      (a, snd (do_call O c fs fresh cl)) :: run O c fs src' r
+  | SCallF cl flt :: r =>
+      let (src', a) := do_call O c (faulted fs flt) src cl in
       (a, snd (do_call O c fs fresh cl)) :: run O c fs src' r
   end.
 
@@ -319,6 +329,7 @@ Definition spec_answer (O : oracle) (c : cfg) (f : fstate) (cl : call) : answer 
   match f with
   | FMissing => ARaise EFileNotFound
   | FBad => ARaise EUnicode
+  | FFail e => ARaise e
   | FText s =>
       let ls := file_lines s in
       match first_error O c [] ls with
